@@ -7,15 +7,15 @@ use customasm::*;
 
 // ---------------------------------------------------------------- C19-b bank definition fields
 
-static mut Q: [Option<expr::Value>; 4] = [None, None, None, None];
-static mut QI: usize = 0;
+struct FieldQueue { magic: u64, q: [Option<expr::Value>; 4], i: usize }
+static mut FQ: FieldQueue = FieldQueue { magic: 0x4651_5eed_c0de_0008, q: [None, None, None, None], i: 0 };
 /// Contract stub for resolver::eval_certain: hands out the prepared field values in call order.
 pub fn st_eval_certain_q(report: &mut diagn::Report, _decls: &asm::ItemDecls, _defs: &asm::ItemDefs, _e: &expr::Expr) -> Result<expr::Value, ()> {
     unsafe {
-        let i = QI;
-        QI += 1;
+        let i = FQ.i;
+        FQ.i += 1;
         if i < 4 {
-            if let Some(v) = Q[i].take() {
+            if let Some(v) = FQ.q[i].take() {
                 return Ok(v);
             }
         }
@@ -41,9 +41,9 @@ modelled! {
         let size: u64 = kani::any();
         let outp: u64 = kani::any();
         unsafe {
-            Q[0] = Some(expr::Value::make_integer(BigInt::new(bits, None)));
-            Q[1] = Some(expr::Value::make_integer(BigInt::new(size, None)));
-            QI = 0;
+            FQ.q[0] = Some(expr::Value::make_integer(BigInt::new(bits, None)));
+            FQ.q[1] = Some(expr::Value::make_integer(BigInt::new(size, None)));
+            FQ.i = 0;
         }
         let node = asm::AstDirectiveBankdef {
             header_span: sp(), name_span: sp(), name: String::from("b"),
